@@ -93,6 +93,8 @@ class RefProgram:
         """Names referenced inline (not by naming convention) that none of the given providers has:
         the constructor refuses such a machine (InvalidDefinition) before anything runs."""
         def provided(name):
+            if name in self.events:
+                return True  # the machine's own event trigger (chained event)
             m = self.prog["cbs"].get("machine." + name)
             if m is not None and m.get("style") in ("callable", "decorator", "devent", "closure"):
                 return True
@@ -515,6 +517,16 @@ class RefInst:
                         # outcome depend on the unspecified order inside the group
                         self.ref.ambiguous = True
             raise RefRaise(pending)
+        if kind == "after" and t is not None and self.rtc:
+            # a callback NAME that is an event of the machine (``after="advance"``): the event is sent,
+            # with the positional and user keyword arguments of the event being processed (queued
+            # behind it in run-to-completion mode)
+            reserved = ("event_data", "machine", "event", "model", "transition", "state", "source", "target")
+            for name in t.get("after", []):
+                if _is_name(name) and name in self.rp.events and not self.providers(name):
+                    self.queue.append({"event": name, "args": list(er.get("args") or []),
+                                       "kwargs": {k_: v_ for k_, v_ in (er.get("kwargs") or {}).items()
+                                                  if k_ not in reserved}})
         return vals
 
     def _may_send(self, full):
